@@ -1,6 +1,6 @@
 """Shared plumbing for bin/check: builds the harness, runs it, runs TLC, parses TLC output.
 Python only transports data; every judgement is made by TLC on the TLA+ specification."""
-import json, os, re, subprocess, sys, time, shutil, collections
+import json, os, re, subprocess, sys, time, shutil, collections, hashlib, concurrent.futures
 
 VERIF = os.path.dirname(os.path.dirname(os.path.abspath(__file__)))
 SPEC = os.path.join(VERIF, "spec")
@@ -84,3 +84,313 @@ def tlc_cmd(args, xmx="3g"):
         m = re.search(r'-cp\s+(\S+)', txt)
         _TLC = m.group(1) if m else "/opt/veriftools/tla/tla2tools.jar"
     return ["java", "-Xmx" + xmx, "-XX:+UseParallelGC", "-cp", _TLC, "tlc2.TLC"] + args
+
+# ---------------------------------------------------------------------------------------
+KNOWN = os.path.join(VERIF, "known_findings.json")
+
+def load_known():
+    try:
+        return json.load(open(KNOWN))
+    except FileNotFoundError:
+        return {"findings": [], "fixed": []}
+
+def violation_key(m):
+    return "%s|%s|%s|%s" % (m["prop"], m["kind"], m["op"], ",".join(sorted(str(b) for b in m["bad"])))
+
+WIRE_ALIAS = {"cup": ["cup", "hvp"], "cuf": ["cuf", "hpr"], "cud": ["cud", "vpr"], "lf": ["lf", "vt", "ff", "nel"]}
+MC_STATS = re.compile(r"(\d+) states generated, (\d+) distinct states found")
+
+def nshards(tier):
+    return 8 if tier == "quick" else 12
+
+class Run:
+    def __init__(self, prop, tier, seed, wd, plan):
+        self.prop, self.tier, self.seed, self.wd, self.plan = prop, tier, seed, wd, plan
+        self.n = nshards(tier)
+        self.hist = [os.path.join(wd, "hist-%d.ndjson" % k) for k in range(self.n)]
+        self.hf = [open(p, "w") for p in self.hist]
+        self.nhist = 0
+        self.mc_runs, self.samples, self.notes = [], [], []
+        self.states = self.transitions = 0
+        self.mism, self.summary = [], collections.Counter()
+        self.crashes = []
+        self.distinct = set()
+        self.violations = 0
+        self.known_hits = []
+
+    # ---- MC + GEN ------------------------------------------------------------------
+    def run_mc(self, job):
+        tier = self.tier
+        name = "MC_%s_%s" % (job["model"], tier)
+        cfg = os.path.join(SPEC, ".gen_%s_%d.cfg" % (name, os.getpid()))
+        inv = job.get("invariants", ["Holds", "WellFormedInv", "DirtyInv", "SelfInv", "Emit"])
+        with open(cfg, "w") as f:
+            f.write("SPECIFICATION Spec\nCONSTANTS\n  Model = \"%s\"\n  Geoms <- %s\n  EmitVectors = %s\n  TextLen = %d\n" %
+                    (job["model"], job["geoms"][tier], "TRUE" if job.get("emit", True) else "FALSE",
+                     job.get("textlen", {}).get(tier, 2)))
+            f.write("INVARIANTS " + " ".join(inv) + "\nCHECK_DEADLOCK FALSE\n")
+        md = os.path.join(self.wd, "md-" + name)
+        cmd = tlc_cmd(["-workers", str(job.get("workers", 8)), "-metadir", md, "-cleanup", "-noGenerateSpecTE",
+                       "-config", os.path.basename(cfg), job.get("module", "MC") + ".tla"], job.get("xmx", "8g"))
+        ports = job["ports"][tier]
+        t0 = time.time()
+        nvec = 0
+        tail = collections.deque(maxlen=60)
+        try:
+            p = subprocess.Popen(cmd, cwd=SPEC, env=tlc_env(deque=False), stdout=subprocess.PIPE,
+                                 stderr=subprocess.STDOUT, text=True)
+            for line in p.stdout:
+                if line.startswith('<<"VEC"'):
+                    m = PRINT_RE.match(line.rstrip("\n"))
+                    vec = json.loads(unq(m.group(2)))
+                    self.add_vector(job, vec, nvec, ports)
+                    nvec += 1
+                else:
+                    tail.append(line)
+            p.wait(timeout=job.get("timeout", 3600))
+        finally:
+            try: os.remove(cfg)
+            except OSError: pass
+            shutil.rmtree(md, ignore_errors=True)
+        out = "".join(tail)
+        m = MC_STATS.search(out)
+        if "Model checking completed. No error has been found." not in out or not m:
+            raise ToolError("MC run %s did not complete cleanly (the specification itself fails its own "
+                            "property or could not be evaluated):\n%s" % (name, out[-3500:]))
+        gen, dist = int(m.group(1)), int(m.group(2))
+        self.states += dist
+        self.transitions += gen
+        self.mc_runs.append({"model": job["model"], "geoms": job["geoms"][tier], "states_distinct": dist,
+                             "states_generated": gen, "vectors": nvec, "invariants": inv,
+                             "wall_s": round(time.time() - t0, 1)})
+
+    def add_vector(self, job, vec, idx, ports):
+        for port, every in ports.items():
+            if idx % every != 0:
+                continue
+            for disp in ([False, True] if job.get("disp") and port == "api" else [False]):
+                ev = dict(vec["ev"], port=port)
+                if port != "api" and ev["op"] in WIRE_ALIAS:      # the alternative finals / controls of the same operation
+                    al = WIRE_ALIAS[ev["op"]]
+                    ev["op"] = al[(idx // every) % len(al)]
+                h = {"id": "%s-v%d-%s%s" % (job["model"], idx, port, "-d" if disp else ""), "sid": "", "cmp": "",
+                     "C": vec["C"], "L": vec["L"], "scr": True, "utf8": True, "dispsetup": disp,
+                     "setup": vec["setup"], "evs": [ev] + ([{"op": "display", "p": [], "s": [], "pr": False, "port": "api"}] if job.get("display_after") else [])}
+                self.hf[self.nhist % self.n].write(json.dumps(h, separators=(",", ":")) + "\n")
+                self.nhist += 1
+                if len(self.samples) < 3:
+                    self.samples.append({"kind": "vector", "history": h})
+
+    def run_gen(self, job):
+        count = job["count"][self.tier]
+        per = max(1, count // self.n)
+        for k in range(self.n):
+            tmp = os.path.join(self.wd, "gen-%d.ndjson" % k)
+            opts = ["%s=%s" % kv for kv in job.get("opts", {}).items()]
+            seed = self.seed * 1000 + k * 37 + job.get("salt", 0)
+            r = harness(["gen", job["driver"], seed, per, tmp] + opts)
+            if r.returncode != 0:
+                raise ToolError("generator failed: " + r.stderr[-2000:])
+            for line in open(tmp):
+                self.hf[k].write(line)
+                self.nhist += 1
+                if len([s for s in self.samples if s["kind"] == job["driver"]]) < 1:
+                    h = json.loads(line)
+                    h["evs"] = h["evs"][:12]
+                    self.samples.append({"kind": job["driver"], "history_prefix": h})
+            os.remove(tmp)
+
+    # ---- replay on the implementation ----------------------------------------------
+    def replay_shard(self, k):
+        hist, trace = self.hist[k], os.path.join(self.wd, "trace-%d.ndjson" % k)
+        open(trace, "w").close()
+        crashes = []
+        cur = hist
+        for attempt in range(25):
+            part = trace + ".part"
+            try:
+                r = harness(["replay", cur, part], timeout=self.plan.get("replay_timeout", 900))
+                rc, timed = r.returncode, False
+            except subprocess.TimeoutExpired:
+                rc, timed = -9, True
+            lines = open(part).read().split("\n") if os.path.exists(part) else []
+            if rc == 0:
+                with open(trace, "a") as f:
+                    f.write("\n".join(l for l in lines if l) + "\n")
+                break
+            # abnormal end: the last begun history is the culprit
+            last_begin = max((i for i, l in enumerate(lines) if l.startswith('{"k":"begin"')), default=None)
+            if last_begin is None:
+                raise ToolError("harness failed before running anything: rc=%s" % rc)
+            culprit = json.loads(lines[last_begin])["id"]
+            crashes.append({"id": culprit, "rc": rc, "timeout": timed})
+            with open(trace, "a") as f:
+                f.write("\n".join(l for l in lines[:last_begin] if l) + "\n")
+            rest, seen = [], False
+            for l in open(cur):
+                if seen:
+                    rest.append(l)
+                elif json.loads(l)["id"] == culprit:
+                    seen = True
+                    crashes[-1]["history"] = json.loads(l)
+            cur = hist + ".rest%d" % attempt
+            open(cur, "w").writelines(rest)
+            if not rest:
+                break
+        return trace, crashes
+
+    def validate_shard(self, k, trace):
+        if os.path.getsize(trace) < 5:
+            return [], {}, 0.0
+        mism, summary, st = run_trace(trace, self.plan["props"], self.wd, timeout=self.plan.get("tv_timeout", 3000),
+                                      xmx=self.plan.get("tv_xmx", "3g"))
+        for m in mism:
+            m["shard"] = k
+        return mism, summary, st["wall_s"]
+
+    def count_distinct(self, trace):
+        ops = set(self.plan.get("ops", []))
+        prev = None
+        with open(trace) as f:
+            for line in f:
+                if not line.startswith('{"k":"op"') and not line.startswith('{"k":"feed"') and not line.startswith('{"k":"sync"') and not line.startswith('{"k":"new"'):
+                    continue
+                d = json.loads(line)
+                if d["k"] in ("new", "sync"):
+                    p = d["post"]; prev = (p.get("L"), p.get("C"), p.get("x"), p.get("y"), str(p.get("mar")), str(p.get("modes")))
+                    continue
+                if d["k"] == "op":
+                    ev = d["ev"]
+                    if not ops or ev["op"] in ops:
+                        self.distinct.add(hash((ev["op"], str(ev["p"]), str(ev["s"]), ev["pr"], prev)))
+                    p = d["post"]; prev = (p.get("L"), p.get("C"), p.get("x"), p.get("y"), str(p.get("mar")), str(p.get("modes")))
+                elif "feed" in ops or not ops:
+                    ev = d["ev"]
+                    self.distinct.add(hash((str(ev.get("ws")), str(ev.get("wb")))))
+
+    # ---- main ------------------------------------------------------------------------
+    def execute(self):
+        for job in self.plan.get("mc", []):
+            if self.tier in job["geoms"]:
+                self.run_mc(job)
+        for job in self.plan.get("gen", []):
+            if job["count"].get(self.tier, 0) > 0:
+                self.run_gen(job)
+        for f in self.hf:
+            f.close()
+        with concurrent.futures.ThreadPoolExecutor(max_workers=self.n) as ex:
+            rep = list(ex.map(self.replay_shard, range(self.n)))
+        for trace, crashes in rep:
+            self.crashes.extend(crashes)
+        with concurrent.futures.ThreadPoolExecutor(max_workers=self.n) as ex:
+            res = list(ex.map(lambda k: self.validate_shard(k, rep[k][0]), range(self.n)))
+        for k, (mism, summary, wall) in enumerate(res):
+            self.mism.extend(mism)
+            self.summary.update(summary)
+            self.count_distinct(rep[k][0])
+        return self.report(rep)
+
+    def history_of(self, shard, trace, line):
+        """the history (as given to the harness) that produced trace line `line` (1-based)"""
+        hid = None
+        with open(trace) as f:
+            for i, l in enumerate(f, 1):
+                if l.startswith('{"k":"begin"'):
+                    hid = json.loads(l)["id"]
+                if i >= line:
+                    break
+        for l in open(self.hist[shard]):
+            h = json.loads(l)
+            if h["id"] == hid:
+                return h
+        return {"id": hid}
+
+    def report(self, rep):
+        known = load_known()
+        keys = {(f["property"], f["key"]): f for f in known.get("findings", [])}
+        os.makedirs(os.path.join(VERIF, "replays", self.prop), exist_ok=True)
+        seen_new, printed_known = {}, set()
+        # crashes (abort / stack overflow / hang of the process) are C01's
+        if self.prop == "C01":
+            for c in self.crashes:
+                m = {"prop": "C01", "kind": "crash", "op": "process", "bad": ["timeout" if c["timeout"] else "abort"],
+                     "line": 0, "info": {"rc": c["rc"]}, "shard": -1, "_history": c.get("history", {"id": c["id"]})}
+                self.mism.append(m)
+        for m in self.mism:
+            if m["prop"] != self.prop:
+                continue
+            key = violation_key(m)
+            if (self.prop, key) in keys:
+                if key not in printed_known:
+                    printed_known.add(key)
+                    print("KNOWN-FINDING: property=%s %s (%s)" % (self.prop, keys[(self.prop, key)].get("what", ""), key))
+                self.known_hits.append(key)
+                continue
+            self.violations += 1
+            if key in seen_new:
+                seen_new[key]["count"] += 1
+                continue
+            h = m.get("_history") or self.history_of(m["shard"], rep[m["shard"]][0], m["line"])
+            path = os.path.join(VERIF, "replays", self.prop, hashlib.sha1((key + h.get("id", "")).encode()).hexdigest()[:12] + ".json")
+            json.dump({"property": self.prop, "key": key, "tier": self.tier, "seed": self.seed,
+                       "mismatch": {k: v for k, v in m.items() if not k.startswith("_")}, "history": h},
+                      open(path, "w"), indent=1)
+            seen_new[key] = {"count": 1, "path": path}
+            print("VIOLATION property=%s replay=%s" % (self.prop, path))
+            print("  key=%s op=%s p=%s info=%s" % (key, m["op"], m.get("p"), json.dumps(m.get("info"))[:600]))
+        self.new_keys = seen_new
+        return 1 if seen_new else 0
+
+    def write_evidence(self, wall):
+        judged = int(self.summary.get(self.prop, 0))
+        cov = {
+            "states": self.states, "transitions": self.transitions,
+            "traces_validated_against_impl": self.nhist,
+            "samples": self.samples[:4] or [{"note": "no histories"}],
+            "evaluations": judged, "distinct_nontrivial": len(self.distinct),
+            "rule": self.plan.get("rule", "") + " | evaluations = trace lines on which TLC evaluated this property's predicate; "
+                    "distinct_nontrivial = distinct (event, geometry, cursor, margins, modes) pairs among judged lines "
+                    "(grid content ignored, so an under-count)",
+            "exhaustive": bool(self.plan.get("mc")) and self.tier == "thorough",
+            "checker_cmd": "tlc (TLC2, tla2tools.jar) on spec/MC.tla and spec/Trace.tla",
+            "trusted_base": ["TLC/SANY and the CommunityModules Json/IOUtils modules", "harness projection (harness/src/project.rs)",
+                             "unicode-width / unicode-normalization as environment facts (display width, combining)",
+                             "the reading of the property statement in spec/Props.tla and spec/Decl.tla"],
+            "mc_runs": self.mc_runs, "tv_counters": dict(self.summary),
+            "crashed_histories": len(self.crashes), "known_finding_hits": len(self.known_hits),
+            "setup_mismatch": int(self.summary.get("setup_mismatch", 0)),
+            "skipped_illformed": int(self.summary.get("skipped_illformed", 0)),
+        }
+        if not self.mc_runs:
+            cov["states"] = max(1, int(self.summary.get("lines", 0)))
+            cov["transitions"] = max(1, int(self.summary.get("ops", 0)) + int(self.summary.get("feeds", 0)))
+            cov["explanation_states"] = "no bounded model in this tier: states/transitions count the states and steps of the trace-validation runs"
+        ev = {"property_id": self.prop, "tier": self.tier, "seed": self.seed, "level": self.plan.get("level", "model_checking"),
+              "coverage": cov, "assumptions": self.plan.get("assumptions", []), "wall_s": round(wall, 1),
+              "violations": self.violations}
+        os.makedirs(os.path.join(VERIF, "evidence"), exist_ok=True)
+        json.dump(ev, open(os.path.join(VERIF, "evidence", self.prop + ".json"), "w"), indent=1)
+
+def do_replay(prop, path, wd):
+    from plans import PLANS
+    rp = json.load(open(path))
+    h = rp["history"]
+    hist, trace = os.path.join(wd, "h.ndjson"), os.path.join(wd, "t.ndjson")
+    open(hist, "w").write(json.dumps(h) + "\n")
+    try:
+        r = harness(["replay", hist, trace], timeout=300)
+        rc = r.returncode
+    except subprocess.TimeoutExpired:
+        rc = -9
+    if rc != 0:
+        print("VIOLATION property=%s replay=%s" % (prop, path)); print("  the process died or hung (rc=%s)" % rc)
+        return 1
+    mism, summary, st = run_trace(trace, PLANS[prop]["props"], wd)
+    mine = [m for m in mism if m["prop"] == prop]
+    for m in mine:
+        print("  mismatch:", json.dumps(m)[:1500])
+    if mine:
+        print("VIOLATION property=%s replay=%s" % (prop, path))
+        return 1
+    print("replay: property %s holds on this history (%d lines judged)" % (prop, summary.get(prop, 0)))
+    return 0
